@@ -223,7 +223,7 @@ pub fn replay(path: &str) -> i32 {
     for v in &a {
         println!("observed: {} {} {} :: {}", v.prop, v.site, v.cond, v.detail);
     }
-    if a.iter().any(|v| v.prop == prop && v.site == site && v.cond == cond) {
+    if a.iter().any(|v| (v.prop == prop || (cond == "panic" && v.prop == "C20")) && v.site == site && v.cond == cond) {
         println!("VIOLATION property={prop} replay={path}");
         1
     } else {
